@@ -23,6 +23,7 @@ type caseC20 struct {
 	Sort   string
 	Since  *model.Date `json:",omitempty"` // --since filter
 	Now    bool        `json:",omitempty"` // --now (open ranges closed at the clock of Env)
+	Type   string      `json:",omitempty"` // --entry-type filter (range, open-range, duration)
 	Env    model.Env
 }
 
@@ -54,6 +55,9 @@ func genC20(t *rapid.T, ev *evid.Rec) caseC20 {
 			}
 		}
 		c.Now = rapid.IntRange(0, 3).Draw(t, "now") == 0
+		if !c.Now && rapid.IntRange(0, 3).Draw(t, "withType") == 0 {
+			c.Type = rapid.SampledFrom([]string{"range", "open-range", "duration"}).Draw(t, "entryType")
+		}
 	}
 	return c
 }
@@ -286,12 +290,56 @@ func checkC20(c caseC20) (Outcome, error) {
 		want = filtered
 		out.Label("filtered")
 	}
+	if valid && c.Type != "" {
+		// entries of other types disappear, records without a matching entry disappear, and what
+		// remains (date, should-total, summary, the matching entries) is reproduced unchanged
+		q := queryC13{Type: c.Type}
+		fa, _ := buildFilterArgs(q)
+		filter.EntryType = fa.EntryType
+		sel, ents, unsure, okSel := refSelect(want, q, c.Env.NowDay, false, false, true)
+		if !okSel || unsure {
+			out.Label("entry-type-filter-not-decidable")
+			return out, nil
+		}
+		filtered := model.Doc{}
+		for ri, r := range want.Records {
+			if !sel[ri] {
+				continue
+			}
+			nr := r
+			nr.Entries = nil
+			for _, ei := range ents[ri] {
+				nr.Entries = append(nr.Entries, r.Entries[ei])
+			}
+			filtered.Records = append(filtered.Records, nr)
+		}
+		want = filtered
+		out.Label("filtered-by-entry-type")
+	}
 	res := h.RunJson([]string{f}, c.Pretty, valid && c.Now, filter, c.Sort)
 	if res.Err != nil {
 		return out, fmt.Errorf("klog json failed: %s", res.Err.Error())
 	}
-	if !strings.HasSuffix(res.Out, "\n") || strings.Count(strings.TrimRight(res.Out, "\n"), "\n") > 0 && !c.Pretty {
-		return out, fmt.Errorf("unexpected line structure of the JSON output: %s", quoteShort(res.Out))
+	// through klog's real entry point the same document reaches stdout
+	if valid && len(text)%4 == 1 && !c.Now {
+		args := []string{"json"}
+		if c.Pretty {
+			args = append(args, "--pretty")
+		}
+		if c.Sort != "" {
+			args = append(args, "--sort", c.Sort)
+		}
+		if c.Since != nil {
+			args = append(args, "--since", c.Since.Lit())
+		}
+		if c.Type != "" {
+			args = append(args, "--entry-type", c.Type)
+		}
+		code, rerr, realOut := h.RunMain(append(args, f), -1)
+		if code != 0 || strings.TrimSpace(realOut) != strings.TrimSpace(res.Out) {
+			return out, fmt.Errorf("`klog %s` through klog.Run: exit %d (%v), stdout differs from what the command produced\nstdout: %s\nwant:   %s", strings.Join(args, " "), code, rerr, quoteShort(realOut), quoteShort(res.Out))
+		}
+		out.Label("via-klog.Run")
 	}
 	v, err := model.ParseJSON(res.Out)
 	if err != nil {
@@ -303,7 +351,7 @@ func checkC20(c caseC20) (Outcome, error) {
 	}
 	recsV, hasR := root.Get("records")
 	errsV, hasE := root.Get("errors")
-	if !hasR || !hasE || len(root.Keys) != 2 {
+	if !hasR || !hasE { // further top-level keys are not forbidden by the property
 		return out, fmt.Errorf("top level keys are %v", root.Keys)
 	}
 	if (recsV == nil) == (errsV == nil) {
